@@ -37,7 +37,10 @@ Inductive mop :=
 | MRawStore (p i c : nat) | MRawStoreW (p i w : nat)
 | MStash (h s c : nat) | MFetch (r s h : nat)
 | MIsDead (r : nat) | MIsDeadW (w : nat) | MResurrect (r : nat) | MResurrectW (r w : nat)
-| MMove (r r' : nat) | MClear (r : nat) | MClearW (w : nat) | MPtrEq (r1 r2 : nat).
+| MMove (r r' : nat) | MClear (r : nat) | MClearW (w : nat) | MPtrEq (r1 r2 : nat)
+(* Gc::new(mc, value) where the value already HOLDS pointers (taken from the callback's registers):
+   the object is born with contents; no barrier is involved *)
+| MAllocWith (r : nat) (k : kind) (cs ws : list (option nat)).
 
 Inductive chow := HCollectDebt | HMarkDebt | HFinishMarking | HCycleDebt | HFinishCycle.
 
@@ -92,6 +95,17 @@ Definition norm_obj (k : kind) (ns nw : nat) : obj :=
   | KLock => new_obj KLock 1 0
   | KOnce => new_obj KOnce 1 0
   | KStruct => new_obj KStruct (2 + ns) nw
+  end.
+
+(** an object born with contents. A [OnceLock] can only be created empty; a [Lock] has one slot. *)
+Definition init_obj (k : kind) (s w : list (option id)) : option obj :=
+  match k with
+  | KNode => Some (mkObj White true true KNode s w)
+  | KLock => Some (mkObj White true true KLock [match s with a :: _ => a | [] => None end] [])
+  | KStruct =>
+    Some (mkObj White true true KStruct
+                (match s with a :: _ :: rest => a :: None :: rest | [a] => [a; None] | [] => [None; None] end) w)
+  | _ => None
   end.
 
 Definition store_strong (c : ctx) (pid : id) (o : obj) (i : nat) (v : option id) : ctx :=
@@ -434,6 +448,13 @@ Definition micro (w : world) (ar : arena) (k : cbkind) (m : mop) : arena * list 
     match rg c r1, rg c r2 with
     | Some x, Some y => upd c [ob (Nat.eqb x y)]
     | _, _ => keep
+    end
+  | MAllocWith r kd cs ws =>
+    let s := map (fun x => match x with Some r' => rg c r' | None => None end) cs in
+    let wv := map (fun x => match x with Some r' => wrg c r' | None => None end) ws in
+    match init_obj kd s wv with
+    | None => keep
+    | Some o => let '(c1, i) := link c o in upd (set_rg c1 r (Some i)) [Z.of_nat i]
     end
   end.
 
